@@ -282,6 +282,10 @@ class Interp(object):
                     r = list(r)
                 return r
             raise AnalysisError('method call .%s outside whitelist' % f.attr)
+        # a callable the analyser itself put into the environment (a marker), reached through a subscript / attribute
+        fn = self.expr(f)
+        if callable(fn) and any(fn is v for v in self.extra.values()):
+            return fn(*args, **kwargs)
         raise AnalysisError('call form outside whitelist')
 
 
